@@ -16,7 +16,7 @@ RULE = ("case 'exp' = (matrix, ordered pair of writers (w1, w2) out of arxml, cs
         "Matrices include long names (> 32 characters), free signals, cycle times, duplicate frame names, receiver lists not yet "
         "propagated to the frames, multiplex groups with many values, attributes with definitions. quick: every ordered pair on 1 "
         "matrix per shard + random pairs; thorough: every ordered pair on 20 matrices. case 'seeds' = the same exports in "
-        "The 'seeds' case also exports every matrix in the long-running process after a variant of it (same names, other value texts, comments, units) and compares with a fresh process. The process state decoding depends on (decimal context) is compared before and after every export; comments over two lines occur. subprocesses under 6 (thorough: 12) values of PYTHONHASHSEED, always including a frame with 15 multiplex groups. One matrix in seven has a frame whose length was never set (0) although it has signals. Non-trivial = every distinct case (each exercises >= 1 writer).")
+        "The 'seeds' case also exports every matrix in the long-running process after a variant of it (same names, other value texts, comments, units) and compares with a fresh process. The process state decoding depends on (decimal context) is compared before and after every export; comments over two lines occur. subprocesses under 6 (thorough: 12) values of PYTHONHASHSEED, always including a frame with 15 multiplex groups. One matrix in seven has a frame whose length was never set (0) although it has signals. Further configurations of the writers (options of formats.dump: csv delimiters, bit notations and attribute columns of csv/xls/json, encodings of dbc/dbf/sym, dbc without compatibility names and value tables, arxml 3, json native types) are paired with every configuration of the same format in both orders and with random configurations. Matrices also have frames of their own named VECTOR__INDEPENDENT_SIG_MSG (with and without signals without frame), the ECU name Vector__XXX as a transmitter/receiver, definitions of their own under the names the writers define (GenMsgCycleTime, VFrameFormat, GenSigStartValue, System...LongSymbol, BusType) and texts outside ASCII. 'unchanged' also compares what the matrix answers to lookups by name and identifier (frame_by_name, get_frame_by_name, frame_by_id, get_frame_by_id, ecu_by_name, for every name/identifier in the matrix, the reserved ones and all keys of the lookup dictionaries); decoding is also done through CanMatrix.decode. Every 'exp' case starts from the decimal context of a fresh interpreter. In the 'seeds' case every subprocess has its own export history (listed order, reverse order, shuffles of the (configuration, matrix) pairs) and the long-running process exports a variant with every other configuration of the same writer first. Non-trivial = every distinct case (each exercises >= 1 writer).")
 EXHAUSTIVE = {"quick": False, "thorough": False}
 PARTIAL = ["the writers' footprint on their argument is recorded in the model by hand (copiesFirst/normalise); that the record is complete "
            "is established only by this correspondence check - the theorems carry least here",
@@ -31,6 +31,26 @@ WRITERS = {
     "kcd": ("kcd", {}), "scapy": ("scapy", {}), "sym": ("sym", {}), "wireshark": ("wireshark", {}), "xls": ("xls", {}),
 }
 WKEYS = sorted(WRITERS)
+# further configurations of the same writers: the options formats.dump passes on to them.  The thirteen entries above keep their streams
+# (every ordered pair); a configuration below is paired with every configuration of the same format (both orders) and with random ones
+VARIANTS = {
+    "arxml-3": ("arxml", {"arVersion": "3.2.3"}),
+    "csv;": ("csv", {"delimiter": ";"}), "csv-tab": ("csv", {"delimiter": "\t"}),
+    "csv-msb-attrs": ("csv", {"xlsMotorolaBitFormat": "msb", "additionalFrameAttributes": "GenMsgSendType", "additionalAttributes": "GenSigNote"}),
+    "dbc-utf8": ("dbc", {"dbcExportEncoding": "utf-8"}), "dbc-plain": ("dbc", {"compatibility": False, "writeValTable": False}),
+    "dbf-utf8": ("dbf", {"dbfExportEncoding": "utf-8"}),
+    "json-msb": ("json", {"jsonMotorolaBitFormat": "msb"}), "json-all-native": ("json", {"jsonExportAll": True, "jsonNativeTypes": True}),
+    "sym-utf8": ("sym", {"symExportEncoding": "utf-8"}),
+    "xls-lsb-attrs": ("xls", {"xlsMotorolaBitFormat": "lsb", "additionalFrameAttributes": "GenMsgSendType", "additionalSignalAttributes": "GenSigNote"}),
+}
+CONFIGS = dict(WRITERS, **VARIANTS)
+CKEYS = sorted(CONFIGS)
+SIBLINGS = {k: [j for j in CKEYS if j != k and CONFIGS[j][0] == CONFIGS[k][0]] for k in CKEYS}
+# names the formats use for their own bookkeeping (dbc, dbf: the frame that carries the signals without frame, the ECU that stands for
+# "nobody", the definitions the writers add); a caller's matrix may use every one of them for its own objects
+FREE_SIGNALS_FRAME = "VECTOR__INDEPENDENT_SIG_MSG"
+NOBODY = "Vector__XXX"
+RESERVED_FRAME_NAMES = [FREE_SIGNALS_FRAME]
 
 
 def gen_desc(rng, many_groups=False, common_prefix=False):
@@ -72,6 +92,39 @@ def gen_desc(rng, many_groups=False, common_prefix=False):
     if fr and rng.random() < 0.15:
         # a frame whose length was never set (0) although it has signals: the writers must not set it either
         rng.choice(fr)["size"] = 0
+    # the caller's own objects carry names the formats use for their bookkeeping
+    r3 = rng.random()
+    if fr and r3 < 0.3:
+        # a frame of the caller's with the name dbc and dbf give to the frame of the signals without frame (any position, also twice,
+        # with and without signals without frame in the matrix)
+        rng.choice(fr)["name"] = rng.choice(RESERVED_FRAME_NAMES)
+        if r3 < 0.06 and len(fr) >= 2:
+            rng.choice(fr)["name"] = rng.choice(RESERVED_FRAME_NAMES)
+        if r3 < 0.2 and not d["free"]:
+            d["free"] = [{"name": "free0", "size": rng.randint(1, 8)}]
+    if fr and rng.random() < 0.15:
+        # the ECU that stands for "nobody" in dbc and dbf, named by the caller as a transmitter or a receiver
+        f = rng.choice(fr)
+        if rng.random() < 0.5:
+            f["transmitters"] = sorted(set(f["transmitters"]) | {NOBODY})
+        elif f["signals"]:
+            sg = rng.choice(f["signals"])
+            sg["receivers"] = sorted(set(sg["receivers"]) | {NOBODY})
+        if rng.random() < 0.5:
+            d["ecus"] = sorted(set(d["ecus"]) | {NOBODY})
+    if rng.random() < 0.2:
+        # definitions of the caller's under the names the writers define themselves, with other value ranges
+        d["own_defines"] = True
+    if fr and rng.random() < 0.2:
+        # texts outside ASCII (inside Latin-1, which dbc, dbf and sym write by default): the encoding options have something to encode
+        f = rng.choice(fr)
+        f["comment"] = "K\u00fchlwasser-Temperatur \u00b1 2 \u00b0C"
+        for sg in f["signals"][:2]:
+            sg["unit"] = "\u00b0C"
+            if sg.get("values"):
+                sg["values"] = {key: val + "_\u00dcberlast" for key, val in sg["values"].items()}
+            if rng.random() < 0.5:
+                sg["comment"] = "gr\u00f6\u00dfer als 0"
     return d
 
 
@@ -93,6 +146,27 @@ def build(d):
                 s.add_attribute("GenSigNote", "note")
         for e in db.ecus[:1]:
             e.add_attribute("NodeLayer", "3")
+    if d.get("own_defines"):
+        db.add_frame_defines("GenMsgCycleTime", "INT 0 1000")
+        db.add_frame_defines("VFrameFormat", 'ENUM "StandardCAN","ExtendedCAN","mine"')
+        db.add_frame_defines("SystemMessageLongSymbol", "STRING")
+        db.add_signal_defines("GenSigStartValue", "INT 0 10")
+        db.add_signal_defines("GenSigCycleTime", "INT 0 50")
+        db.add_signal_defines("SystemSignalLongSymbol", "STRING")
+        db.add_ecu_defines("SystemNodeLongSymbol", "STRING")
+        db.add_global_defines("BusType", "STRING")
+        db.add_attribute("BusType", "my bus")
+        for k, f in enumerate(db.frames):
+            if k % 2 == 1:
+                f.add_attribute("GenMsgCycleTime", "7")
+                f.add_attribute("SystemMessageLongSymbol", "my long name")
+            if k == 0:
+                f.add_attribute("VFrameFormat", "mine")
+            for s in f.signals[1:2]:
+                s.add_attribute("GenSigStartValue", "3")
+                s.add_attribute("SystemSignalLongSymbol", "my long signal name")
+        for e in db.ecus[1:2]:
+            e.add_attribute("SystemNodeLongSymbol", "my long node name")
     return db
 
 
@@ -105,13 +179,32 @@ def gen(rng, tier, shard, nshards):
                 yield {"op": "exp", "c": {"m": d, "w1": w1, "w2": w2}}
     for _ in range({"quick": 60, "thorough": 600}[tier] // nshards + 1):
         yield {"op": "exp", "c": {"m": gen_desc(rng), "w1": rng.choice(WKEYS), "w2": rng.choice(WKEYS)}}
+    # the other configurations of the writers: every ordered pair of configurations of one format (one of them not the plain one) on
+    # one matrix, and random pairs of any two configurations
+    for _ in range(nmat):
+        d = gen_desc(rng)
+        for w1 in CKEYS:
+            for w2 in [w1] + SIBLINGS[w1]:
+                if w1 in VARIANTS or w2 in VARIANTS:
+                    yield {"op": "exp", "c": {"m": d, "w1": w1, "w2": w2}}
+    for _ in range({"quick": 60, "thorough": 600}[tier] // nshards + 1):
+        w1 = rng.choice(CKEYS)
+        yield {"op": "exp", "c": {"m": gen_desc(rng), "w1": w1, "w2": rng.choice(CKEYS if w1 in VARIANTS else sorted(VARIANTS))}}
     if shard < 2:
         ms = [gen_desc(rng, many_groups=(k == 0), common_prefix=(k == 1)) for k in range(3 if tier == "quick" else 10)]
         # seeds 19, 23, 40 give three further iteration orders of {'Multiplexor', 0, 1, 2, 3, 5, …, 233} on CPython 3.12 (found by search)
         seeds = [0, 19, 23, 40, 7, 31] if tier == "quick" else [0, 19, 23, 40, 7, 31, 35, 47, 51, 54, 59, 1]
         if shard == 1:
             seeds = [rng.randrange(10000) for _ in seeds]
-        yield {"op": "seeds", "c": {"ms": ms, "seeds": seeds}}
+        # every process has its own export history: the (configuration, matrix) pairs in the listed order in the first one, in the
+        # reverse order in the second one (so every two exports occur in both orders), shuffled in the others
+        plain = [[key, k] for key in CONFIGS for k in range(len(ms))]
+        orders = [plain, plain[::-1]]
+        while len(orders) < len(seeds):
+            o = list(plain)
+            rng.shuffle(o)
+            orders.append(o)
+        yield {"op": "seeds", "c": {"ms": ms, "seeds": seeds, "orders": orders}}
 
 
 def neighbours(case, rng, shard, nshards):
@@ -119,7 +212,7 @@ def neighbours(case, rng, shard, nshards):
         return
     for _ in range(40 // nshards + 1):
         yield {"op": "exp", "c": {"m": gen_desc(rng), "w1": case["c"]["w1"], "w2": case["c"]["w2"]}}
-        yield {"op": "exp", "c": {"m": case["c"]["m"], "w1": case["c"]["w1"], "w2": rng.choice(WKEYS)}}
+        yield {"op": "exp", "c": {"m": case["c"]["m"], "w1": case["c"]["w1"], "w2": rng.choice(CKEYS)}}
 
 
 def decode_all(db):
@@ -132,6 +225,45 @@ def decode_all(db):
             out.append(sorted((k, str(v.raw_value)) for k, v in d.items()))
         except Exception as e:  # noqa
             out.append("EXC:" + type(e).__name__)
+        # ... and through the matrix, which looks the frame up by its identifier
+        try:
+            d = db.decode(cm.ArbitrationId(f.arbitration_id.id, f.arbitration_id.extended), bytes([0x5A, 0xC3, 0x69, 0xF0, 0x0F, 0xAA, 0x55, 0x18] * 8)[:f.size])
+            out.append(sorted((k, str(v.raw_value)) for k, v in d.items()))
+        except Exception as e:  # noqa
+            out.append("EXC:" + type(e).__name__)
+    return out
+
+
+def lookups(db):
+    """what the matrix answers when it is asked for a frame or an ECU by name or by identifier (public lookups, incl. the two
+    dictionaries CanMatrix keeps for get_frame_by_name / get_frame_by_id): asked for every name and identifier in the matrix, for
+    the names the formats reserve for themselves and for everything the dictionaries know.  Answers are positions in db.frames."""
+    pos = {id(f): k for k, f in enumerate(db.frames)}
+
+    def who(get, *a):
+        try:
+            f = get(*a)
+        except Exception as e:  # noqa
+            return "EXC:" + type(e).__name__
+        return None if f is None else pos.get(id(f), "a frame that is not in the matrix")
+    names = {f.name for f in db.frames} | set(RESERVED_FRAME_NAMES) | set(getattr(db, "frames_dict_name", {}))
+    ids = {f.arbitration_id.id for f in db.frames} | {0x40000000} | {k for k in getattr(db, "frames_dict_id", {}) if isinstance(k, int)}
+    out = {}
+    for n in sorted(names):
+        out["frame_by_name " + n] = who(db.frame_by_name, n)
+        out["get_frame_by_name " + n] = who(db.get_frame_by_name, n)
+    for i in sorted(ids):
+        out["get_frame_by_id %d" % i] = who(db.get_frame_by_id, i)
+        for ext in (False, True):
+            try:
+                a = cm.ArbitrationId(i, ext)
+            except Exception:  # noqa
+                continue
+            out["frame_by_id %d %s" % (i, ext)] = who(db.frame_by_id, a)
+    epos = {id(e): k for k, e in enumerate(db.ecus)}
+    for n in sorted({e.name for e in db.ecus} | {NOBODY}):
+        e = db.ecu_by_name(n)
+        out["ecu_by_name " + n] = None if e is None else epos.get(id(e), "an ECU that is not in the matrix")
     return out
 
 
@@ -149,7 +281,8 @@ def observe(case):
         results = []
         for seed in c["seeds"]:
             env = dict(os.environ, PYTHONHASHSEED=str(seed), PYTHONDONTWRITEBYTECODE="1")
-            p = subprocess.run([sys.executable, worker], input=json.dumps(c["ms"]).encode(), capture_output=True, env=env, timeout=600)
+            job = c["ms"] if "orders" not in c else {"ms": c["ms"], "order": c["orders"][len(results)]}
+            p = subprocess.run([sys.executable, worker], input=json.dumps(job).encode(), capture_output=True, env=env, timeout=600)
             if p.returncode != 0:
                 raise RuntimeError("export worker failed: " + p.stderr.decode()[-500:])
             results.append(json.loads(p.stdout.decode().strip().split("\n")[-1]))
@@ -166,9 +299,13 @@ def observe(case):
                     sg["values"] = {key: val + "_variant" for key, val in sg.get("values", {}).items()}
                     sg["unit"] = "var"
                     sg["comment"] = "variant comment"
-            for key, (fmt, opts) in WRITERS.items():
+            for key, (fmt, opts) in (CONFIGS if "orders" in c else WRITERS).items():
                 try:
                     M.export_bytes(build(v), fmt, **opts)
+                    if "orders" in c:
+                        # ... also with the other configurations of the same writer: what an export was asked for is no one else's default
+                        for sib in SIBLINGS[key]:
+                            M.export_bytes(build(v), fmt, **CONFIGS[sib][1])
                     h = hashlib.sha256(M.export_bytes(build(d), fmt, **opts)).hexdigest()
                 except Exception as e:  # noqa
                     h = "EXC:" + type(e).__name__
@@ -176,14 +313,22 @@ def observe(case):
                     differs.append("after-a-variant:" + key)
         differs = sorted(set(differs))
         return {"same": not differs, "differs": differs}
-    f1, o1 = WRITERS[c["w1"]]
-    f2, o2 = WRITERS[c["w2"]]
+    f1, o1 = CONFIGS[c["w1"]]
+    f2, o2 = CONFIGS[c["w2"]]
+    # every case starts from the process state of a fresh interpreter, so that an export that changes it is seen in every case in
+    # which it is the first export, not only in the first such case of the process (what an earlier case left behind must not decide
+    # whether this one sees a change; the 'seeds' case keeps whatever the process has accumulated)
+    import decimal
+    decimal.setcontext(decimal.Context(prec=28, rounding=decimal.ROUND_HALF_EVEN, Emin=-999999, Emax=999999, capitals=1, clamp=0, flags=[],
+                                       traps=[decimal.InvalidOperation, decimal.DivisionByZero, decimal.Overflow]))
     db = build(c["m"])
     before = M.normal_form(db, "all")
+    before["lookups"] = lookups(db)
     dec_before = decode_all(db)
     ctx_before = process_state()
     b1 = M.export_bytes(db, f1, **o1)
     after = M.normal_form(db, "all")
+    after["lookups"] = lookups(db)
     dec_after = decode_all(db)
     ctx_after = process_state()
     b2 = M.export_bytes(db, f2, **o2)
@@ -195,6 +340,9 @@ def observe(case):
         r["process_state"] = [str(ctx_before), str(ctx_after)]
     if not r["unchanged"]:
         r["diff"] = [k for k in before if before[k] != after[k]]
+        if "lookups" in r["diff"]:
+            r["lookups"] = {k: [before["lookups"].get(k, "not asked"), after["lookups"].get(k, "not asked")]
+                            for k in sorted(set(before["lookups"]) | set(after["lookups"])) if before["lookups"].get(k, "not asked") != after["lookups"].get(k, "not asked")}
     return r
 
 
@@ -216,6 +364,18 @@ def features(case, impl):
             yield "receivers not propagated"
         if m.get("free"):
             yield "free signals"
+        if case["c"]["w1"] in VARIANTS or case["c"]["w2"] in VARIANTS:
+            yield "a writer with options"
+        if any(n in RESERVED_FRAME_NAMES for n in names):
+            yield "a frame with a name the formats reserve" + (" and free signals" if m.get("free") else "")
+        if NOBODY in json.dumps(m):
+            yield "the ECU name the formats reserve"
+        if m.get("own_defines"):
+            yield "definitions under the writers' own names"
+        if "\\u00" in json.dumps(m):
+            yield "texts outside ASCII"
+    elif "orders" in case["c"]:
+        yield "export histories differ between the processes"
 
 
 def nontrivial(case, impl):
